@@ -11,7 +11,7 @@ CONSTANTS OutFile, Depth
 VARIABLES hist, size0, dice      \* dice: the class of the next externally driven step (drawn in the previous step)
 svars == <<allvars, hist, size0, dice>>
 
-E0 == [a |-> "", i |-> 0, t |-> 0, series |-> 0, total |-> 0, on |-> FALSE, modes |-> <<>>, postFail |-> <<>>, failScale |-> 0, place |-> <<>>]
+E0 == [a |-> "", i |-> 0, t |-> 0, series |-> 0, total |-> 0, on |-> FALSE, modes |-> <<>>, postFail |-> <<>>, rej |-> <<>>, failScale |-> 0, place |-> <<>>]
 Log(e) == hist' = Append(hist, e) /\ UNCHANGED size0 /\ dice' = RandomElement(1..20)
 
 SInit == KInit /\ hist = <<>> /\ size0 = size /\ dice = 3
@@ -22,7 +22,7 @@ FaultStep ==
   \/ ShrinkByOne /\ Log([E0 EXCEPT !.a = "shrink"])
   \/ \E i \in 1..MaxN : \E P \in RandomSubset(1, Placements) :     \* (a bound variable is evaluated once, a LET definition at every use)
         ForeignUpdate(i, P) /\ Log([E0 EXCEPT !.a = "place", !.i = i, !.place = SetToSeq(P)])
-  \/ \E f \in OneFault : StartCycle(f) /\ Log([E0 EXCEPT !.a = "cycle", !.modes = f.modes, !.postFail = f.postFail, !.failScale = f.failScale])
+  \/ \E f \in OneFault : StartCycle(f) /\ Log([E0 EXCEPT !.a = "cycle", !.modes = f.modes, !.postFail = f.postFail, !.rej = f.rej, !.failScale = f.failScale])
 EnvStepS ==
   \/ \E t \in Targets : EnvFrame /\ AddT(t) /\ Log([E0 EXCEPT !.a = "add", !.t = t])
   \/ \E t \in Targets : EnvFrame /\ RemoveT(t) /\ Log([E0 EXCEPT !.a = "remove", !.t = t])
